@@ -41,7 +41,7 @@ def run(ctx):
         if kind == 'gas':
             # fused / linked C6 rings: RDKit's Kekule form gives their second ring the other alternation phase (DOUBLE first),
             # which a lone benzene ring never has
-            pool += ['c1ccc2ccccc2c1', 'c1ccc(cc1)c1ccccc1', 'Cc1ccc2ccccc2c1']
+            pool += ['c1ccc2ccccc2c1', 'c1ccc(cc1)c1ccccc1', 'Cc1ccc2ccccc2c1', 'CC1(C2=C(C3=CC=CC=C3)C=CC=C2)CC1']
         if ctx.thorough():
             pool += list((G.FIXED_GAS if kind == 'gas' else G.FIXED_SURFACE)[:40])
         for _ in range(ctx.n(8, 60)):
